@@ -71,7 +71,7 @@ Proof.
   match goal with |- context [let '(a, b) := ?p in _] => destruct p as [acc2 r2] eqn:E end.
   assert (L : (length r2 <= length r)%nat).
   { destruct r as [|c r']; [inversion E; subst; cbn; lia|].
-    destruct (c =? 45); inversion E; subst; cbn [length]; lia. }
+    destruct ((c =? 45) || (c =? 43)); inversion E; subst; cbn [length]; lia. }
   destruct (span is_ascii_digit r2) as [es r3] eqn:E2. apply span_length in E2. cbn [snd]. lia.
 Qed.
 Lemma good_exp acc r4 r : (length r4 <= length r)%nat ->
